@@ -40,7 +40,24 @@ DIMS = {
     # text items that look like numbers (codes with leading zeros); only in the dimension-file stream
     "c": dict(letter="c", name="code", items=["01", "02", "10"], dtype="str"),
 }
-CLASSES = ["SimpleFlowDrivenStock", "InflowDrivenDSM", "StockDrivenDSM"]
+CLASSES = ["SimpleFlowDrivenStock", "InflowDrivenDSM", "StockDrivenDSM", "OwnStockDriven", "OwnSolverStock"]
+_OWN = {}
+
+
+def stock_class(name):
+    """the library's stock classes, and two classes of the user's own: a subclass of StockDrivenDSM, and a lifetime-based class
+    that is not one but has a solver setting of its own (the definition's solver goes to every class that has the field)"""
+    import flodym as fd
+    if hasattr(fd, name):
+        return getattr(fd, name)
+    if not _OWN:
+        class OwnStockDriven(fd.StockDrivenDSM):
+            pass
+
+        class OwnSolverStock(fd.InflowDrivenDSM):
+            solver: str = "manual"
+        _OWN.update(OwnStockDriven=OwnStockDriven, OwnSolverStock=OwnSolverStock)
+    return _OWN[name]
 LIFETIMES = ["FixedLifetime", "NormalLifetime", "LogNormalLifetime", "WeibullLifetime", "FoldedNormalLifetime"]
 NAMINGS = ["arrow", "nospaces", "ids"]
 
@@ -72,7 +89,7 @@ def gen_definition(rng, k):
             flows.append(dict(f0, override=f"third flow {len(flows)}"))
     stocks = []
     for i in range(rng.randint(0, 3)):
-        cls = rng.randrange(3)
+        cls = rng.choice([0, 1, 2, 0, 1, 2, 2, 3, 4])
         d = [tl] + rng.sample([l for l in letters if l != tl], rng.randint(0, len(letters) - 1))
         stocks.append(dict(name=f"stock {i}", process=(rng.choice(procs[1:]) if len(procs) > 1 and rng.random() < 0.8 else None),
                            dims=d, time=tl, cls=cls, lifetime=(rng.choice(LIFETIMES) if cls else None),
@@ -153,6 +170,11 @@ def generate(tier, rng):
                         if bad and dm["dtype"] != "int":
                             continue
                         cases.append(dict(stream="files", kind="dimfile", dim=dm, orient=orient, header=header, fmt=fmt, bad=bad))
+    # whole numbers beyond 2^53 (serial numbers, identifiers): text files hold them exactly, and so must the items read from them
+    big = dict(letter="i", name="serial", items=[9007199254740993, 5, 1700000000000000001, -9007199254740995], dtype="int")
+    for orient in ("row", "col"):
+        for header in (False, True):
+            cases.append(dict(stream="files", kind="dimfile", dim=big, orient=orient, header=header, fmt="csv", bad=False))
     return cases
 
 
@@ -190,7 +212,7 @@ def _mk_definition(d):
     flows = [fd.FlowDefinition(**{FK: f["frm"], TK: f["to"], "dim_letters": tuple(f["dims"]), "name_override": f["override"]}) for f in d["flows"]]
     stocks = []
     for s in d["stocks"]:
-        kw = {"name": s["name"], PK: s["process"], "dim_letters": tuple(s["dims"]), "time_letter": s["time"], "subclass": getattr(fd, CLASSES[s["cls"]]), "solver": s["solver"]}
+        kw = {"name": s["name"], PK: s["process"], "dim_letters": tuple(s["dims"]), "time_letter": s["time"], "subclass": stock_class(CLASSES[s["cls"]]), "solver": s["solver"]}
         if s["lifetime"]:
             kw["lifetime_model_class"] = getattr(fd, s["lifetime"])
         stocks.append(fd.StockDefinition(**kw))
@@ -349,7 +371,7 @@ def oracle(case, obs):
                 return f"stock {s['name']}: its lifetime model has time letter {s['lt_time']!r} / dims {s['lt_dims']} instead of {sd['time']!r} / {sd['dims']} {desc}"
             if s.get("shares"):
                 return f"stock {s['name']} shares its lifetime model or its arrays with stock {s['shares'][0]} (one stock per definition) {desc}"
-            if sd["cls"] == 2 and s["solver"] != sd["solver"]:
+            if sd["cls"] >= 2 and s["solver"] != sd["solver"]:
                 return f"stock {s['name']}: solver {s['solver']!r} instead of the requested {sd['solver']!r} {desc}"
     if case["via"] != "direct":
         for p in d["params"]:
